@@ -175,6 +175,10 @@ func (e *Env) resolveType(x ast.Expr) *SType {
 		return &SType{Sort: fmt.Sprintf("(Array %s %s)", k.Sort, v.Sort), Key: k, Elem: v}
 	case *ast.InterfaceType:
 		return goSType(types.NewInterfaceType(nil, nil))
+	case *ast.StructType:
+		if x.Fields == nil || len(x.Fields.List) == 0 {
+			return goSType(types.NewStruct(nil, nil))
+		}
 	case *ast.IndexExpr:
 		// generic instantiation pkg.T[A]
 		base := e.resolveType(x.X)
@@ -574,8 +578,13 @@ func (e *Env) selectField(base TV, name string, n ast.Node) TV {
 		if gf, ok := vc.specs.GhostFields[okey+"."+name]; ok {
 			out := e.ghostField(gf, base, named)
 			if base.S.Sort == "Iface" {
-				// model field of an interface: for objects of a concrete type with a binding, the field IS the bound expression
+				// model field of an interface: for objects of a concrete type with a binding, the field IS the bound expression.
+				// Only the package that owns the representation looks through the abstraction; everywhere else the model
+				// field is an abstract ghost field governed by the interface-level contracts alone.
 				for _, b := range vc.specs.Bindings {
+					if !vc.seesRepresentation(b) {
+						continue
+					}
 					if b.Iface == okey && b.Field == name && b.IndexVar == "" {
 						ct := e.concreteTypeOf(b)
 						be := &Env{vc: vc, pkg: b.Pkg, vars: map[string]TV{b.RecvName: {T: app("pl", base.T), S: goSType(ct)}}, heap: e.heap, old: e.old, facts: e.facts}
@@ -717,11 +726,20 @@ func (e *Env) ghostField(gf *GhostField, base TV, named *types.Named) TV {
 	vc := e.vc
 	ge := &Env{vc: vc, pkg: gf.Pkg, vars: map[string]TV{}, heap: e.heap, old: e.old, tparams: e.typeArgEnv(named)}
 	st := ge.resolveType(gf.Type)
-	arr := "G_" + sanitize(shortKey(gf.Owner)) + "_" + gf.Name
-	if named != nil && named.TypeArgs() != nil && named.TypeArgs().Len() > 0 {
-		arr += "_" + sortID(st.Sort)
-	}
+	arr := ghostArrName(gf, named)
 	return TV{T: app("select", vc.hget(e.heap, arr, arrSort(st.Sort)), ghostIndex(base)), S: st}
+}
+
+// ghostArrName: one heap array per ghost field and per instantiation of a generic owner (so that the views of, say,
+// Map[string,*Meta] and Map[string,struct{}] objects are framed independently).
+func ghostArrName(gf *GhostField, named *types.Named) string {
+	arr := "G_" + sanitize(shortKey(gf.Owner)) + "_" + gf.Name
+	if named != nil && named.TypeArgs() != nil {
+		for i := 0; i < named.TypeArgs().Len(); i++ {
+			arr += "_" + sortID(sortOf(named.TypeArgs().At(i)))
+		}
+	}
+	return arr
 }
 
 func shortKey(k string) string {
@@ -767,6 +785,9 @@ func (e *Env) pointwise(x *ast.IndexExpr) (TV, bool) {
 			g := e.ghostField(gf, base, named)
 			out := TV{T: app("select", g.T, idx.T), S: g.S.Elem}
 			for _, b := range vc.specs.Bindings {
+				if !vc.seesRepresentation(b) {
+					continue
+				}
 				if b.Iface == okey && b.Field == sel.Sel.Name && b.IndexVar != "" {
 					ct := e.concreteTypeOf(b)
 					be := &Env{vc: vc, pkg: b.Pkg, vars: map[string]TV{b.RecvName: {T: app("pl", base.T), S: goSType(ct)}, b.IndexVar: idx}, heap: e.heap, old: e.old, depth: e.depth, facts: e.facts}
@@ -1015,6 +1036,9 @@ func (e *Env) trCall(x *ast.CallExpr) TV {
 		t := v.T
 		if v.S.Sort == "Slice" {
 			t = app("sid", v.T)
+		}
+		if v.S.Sort == "Iface" {
+			t = app("pl", v.T)
 		}
 		return TV{T: app("<=", t, vc.hget(e.heap, "top", "Int")), S: stBool}
 	case "call":
